@@ -31,6 +31,7 @@ def dispatch (line : String) : String :=
     | "sched-rec" => schedRecCmd rest
     | "sched-rec-overlap" => schedRecOverlapCmd rest
     | "catcher-api" => catcherApiCmd rest
+    | "rec-tick" => recTickCmd rest
     | "conc-coll" => concCollCmd rest
     | "catcher" => catcherCmd rest
     | "views" => viewsCmd rest
